@@ -1047,9 +1047,20 @@ comsgPrintLine(FILE *fout, SrcPos spos)
 	 */
 	buf = bufNew();
 	rc = sposLineText(buf, spos);
-	if (rc == -1) {
+	if (rc == -1 && (sposIsSpecial(spos) || fintMode == FINT_LOOP ||
+			 fnameIsStdin(sposFile(spos)))) {
 		bufFree(buf);
 		return (fintMode == FINT_LOOP ? comsgPromptSize : -1); 
+	}
+	/*
+	 * If the line cannot be read (the file named by a #line directive is
+	 * shorter, or is not here) the heading is still printed, with an empty
+	 * text: it is the only place where the file is named.
+	 */
+	if (rc == -1) {
+		bufFree(buf);
+		buf = bufNew();
+		bufAdd1(buf, char0);
 	}
 
 	s  = bufLiberate(buf);
